@@ -313,7 +313,7 @@ def _proj_cfgs():
 NAMES = ("x", "y", "z", "t")
 
 
-@contract(HNDK + ".projection", props=["C09", "C12"])
+@contract(HNDK + ".projection", props=["C09", "C12", "C18"])       # C18: a projection that shared binnings would let a later fill of it break the parent
 class _projection:
     bounded = True
     bound_note = "projection: dimension 2..4 (all shapes up to (2,2,2)/(1,2,1,2)), axis tuples enumerated; contents symbolic"
